@@ -315,7 +315,7 @@ def r6_command_verbatim(chk: Check) -> None:
     fn = P.func("core/failures.py:format_failures")
     if "curl" not in params_of(fn.node):
         raise Undecided("format_failures has no `curl` parameter")
-    REWRITE = {"indent", "dedent", "fill", "wrap", "shorten", "replace", "expandtabs", "splitlines", "split", "strip", "lstrip", "rstrip", "lower", "upper", "translate", "sub", "join", "ljust", "rjust", "center", "format"}
+    REWRITE = {"indent", "dedent", "fill", "wrap", "shorten", "replace", "expandtabs", "splitlines", "lower", "upper", "translate", "sub"}
     # names carrying the command: curl and locals defined from it
     carriers = {"curl"}
     changed = True
@@ -363,6 +363,8 @@ def r7_real_headers_merged_in_full(chk: Check) -> None:
         construct = f"`{unparse(c, 60)}` merges the given headers as a whole"
         if isinstance(a, ast.Name) and a.id in ps:
             chk.ok("C09.R7", fn, construct, "", fn.loc(c))
+        elif isinstance(a, (ast.DictComp, ast.GeneratorExp, ast.ListComp)) and any(g.ifs for g in a.generators) and not any(isinstance(i, ast.Name) or (isinstance(i, ast.UnaryOp) and isinstance(i.operand, ast.Name)) for g in a.generators for i in g.ifs):
+            chk.undecided("C09.R7", fn, construct, "a filtered copy whose filter is not a truthiness test", fn.loc(c))
         elif isinstance(a, (ast.DictComp, ast.GeneratorExp, ast.ListComp)) and any(g.ifs for g in a.generators):
             chk.violation("C09.R7", fn, construct,
                           f"only the entries passing `{unparse(a.generators[0].ifs[0], 40)}` are merged: a header that was sent with an empty value (a session header `X-Debug: `, CLI `-H 'X-Debug:'`) and is not one of the case's own headers disappears from the `Reproduce with` command",
